@@ -200,6 +200,7 @@ type pathCtx struct {
 	pools                                                map[*value][]value
 	maxDraws                                             int // harness-stated bound on dice per path (0 = none)
 	sched                                                *sched
+	onceDone                                             map[*value]bool
 	modelOwned                                           uintptr // identity of the model map this path owns (may write)
 	syncMaps                                             map[*value]*syncMapState
 	schedClockDone                                       int
